@@ -58,6 +58,9 @@ func (i *documentIndex) UpdateIndex(oplog ipfslog.Log, _ []ipfslog.Entry) error 
 	size := len(entries)
 	verifhook.At("index.read", i, oplog, size)
 
+	// the view is what the log holds now: it is built anew, so that keys
+	// whose entries have left the log (a load with a limit cuts it) leave too
+	index := map[string][]byte{}
 	handled := map[string]struct{}{}
 
 	for idx := range entries {
@@ -73,7 +76,7 @@ func (i *documentIndex) UpdateIndex(oplog ipfslog.Log, _ []ipfslog.Entry) error 
 				}
 
 				handled[opDoc.GetKey()] = struct{}{}
-				i.index[opDoc.GetKey()] = opDoc.GetValue()
+				index[opDoc.GetKey()] = opDoc.GetValue()
 			}
 
 			continue
@@ -90,14 +93,12 @@ func (i *documentIndex) UpdateIndex(oplog ipfslog.Log, _ []ipfslog.Entry) error 
 		}
 
 		handled[*item.GetKey()] = struct{}{}
-		switch item.GetOperation() {
-		case "PUT":
-			i.index[*item.GetKey()] = item.GetValue()
-
-		case "DEL":
-			delete(i.index, *item.GetKey())
+		if item.GetOperation() == "PUT" {
+			index[*item.GetKey()] = item.GetValue()
 		}
 	}
+
+	i.index = index
 
 	return nil
 }
